@@ -178,10 +178,13 @@ where
 		let mut amount_debited = 0;
 		t.num_inputs = lock_inputs.len();
 		for id in lock_inputs {
-			let mut coin = batch.get(&id.0, &id.1).unwrap();
+			let mut coin = batch.get(&id.0, &id.1)?;
 			// the inputs were selected when the transaction was initiated; refuse to
-			// reserve them if another transaction has taken them in the meantime
-			if coin.status == OutputStatus::Locked || coin.status == OutputStatus::Spent {
+			// reserve them if they have stopped being spendable in the meantime
+			if coin.status == OutputStatus::Locked
+				|| coin.status == OutputStatus::Spent
+				|| coin.status == OutputStatus::Reverted
+			{
 				return Err(Error::GenericError(format!(
 					"Output {} selected for this transaction is already {}",
 					coin.key_id, coin.status
